@@ -24,9 +24,9 @@ Definition is_any (v : val) : bool :=
 Definition is_number (v : val) : bool :=
   match v with VSym => false | _ => true end.
 
-(* complex(scale) in Quantity.__init__: zoo cannot be converted *)
+(* complex(scale) in Quantity.__init__ (complex(zoo) = nan+nanj succeeds in SymPy 1.14) *)
 Definition complex_ok (v : val) : bool :=
-  match v with VSym | VZoo => false | _ => true end.
+  match v with VSym => false | _ => true end.
 
 Definition qsign (q : Q) : comparison := Qcompare q 0.
 
